@@ -217,6 +217,11 @@ class ExecBase:
 
     def narrow(self, st, v, want: Sort):
         "a union value used where a specific type is expected: unwrap when the path condition fixes the tag"
+        if isinstance(v, VRec) and isinstance(v.sort, TUnionRec) and isinstance(want, TRec) and not isinstance(want, TUnionRec) \
+                and want.cls in v.sort.members:
+            if not self.feasible(st, v.sort.get(v.t, "tag") != self.class_id(want.cls)):
+                return VRec(v.sort.get(v.t, v.sort.member_field(want.cls)), want)
+            return v
         if isinstance(v, VOpt) and not isinstance(want, TOpt) and v.sort.inner == want:
             if not self.feasible(st, v.sort.is_none(v.t)):
                 return mk_val(v.sort.the(v.t), v.sort.inner)
